@@ -5,7 +5,8 @@ CONSTANTS
   Vals <- TraceVals
   CheckKeys <- TraceCheck
   MaxOps = 1000000
+  Ops <- TraceOps
   KeepHist = FALSE
-INVARIANTS ObservationsConform Canonical GetMatchesContent CommitReloadPreserves ProofComplete AbsenceProvable ProofSound StackTrieEqualsTrie
+INVARIANTS ObservationsConform Canonical GetMatchesContent OtherCanonical CommitReloadPreserves ProofComplete AbsenceProvable ProofSound StackTrieEqualsTrie
 POSTCONDITION TraceAccepted
 CHECK_DEADLOCK FALSE
